@@ -323,7 +323,14 @@ def main(argv):
             binaries[g] = build(scratch, g)
         outdir = os.path.join(scratch, "out")
         os.makedirs(outdir)
+        if a.replay:
+            os.environ["VERIF_REPLAY_KEEP"] = "1"
         jobs, failures = run_parts(binaries, parts, tier, seed, outdir, a.replay)
+        if a.replay:
+            for lf in sorted(glob.glob(os.path.join(outdir, "log-*.txt"))):
+                for line in open(lf, errors="replace"):
+                    if line.startswith("REPLAY") or line.startswith("  "):
+                        print(line.rstrip())
         lines, nviol = merge(chk, tier, seed, jobs, outdir, time.time() - t0, failures)
         for l in lines:
             print(l, flush=True)
